@@ -31,6 +31,8 @@ def mc(ctx, tier):
     """Bounded search (8 workers) and non-vacuity run (1 worker, counters)
     side by side."""
     cfg = "CalStoreMC_quick.cfg" if tier == "quick" else "CalStoreMC_thorough.cfg"
+    if os.environ.get("CALSTORE_SKIP_MC"):      # mutation runs of the library
+        return None                              # do not re-check the design
 
     def search():
         return vlib.tlc_model_check("CalStoreMC.tla", cfg, ctx.work, workers=8,
@@ -115,11 +117,18 @@ def issues_from_validation(ctx, res, label):
         m = common.CASE_RE.search(f["lines"][0])
         case = m.group(1) if m else "?"
         if evname == "End" and field == "live":
-            # name the leak by the calls that were made in the episode
-            made = sorted({json.loads(ln).get("e") for ln in f["lines"]
-                           if ln.startswith('{"e"')} -
-                          {"Reset", "End", "Create", "Free"})
-            sig = "CalStore:End:live:" + ";".join(made)[:160]
+            # name the leak by the non-silent calls that failed in the episode
+            # (leaks on success paths give the empty list)
+            made = set()
+            for ln in f["lines"]:
+                try:
+                    e2 = json.loads(ln)
+                except ValueError:
+                    continue
+                if e2.get("ok") == 0 and e2.get("e") not in (
+                        "Get", "Prop", "FindCalibration", "DeleteCalibration"):
+                    made.add("%s:%s" % (e2.get("e"), e2.get("err")))
+            sig = "CalStore:End:live:" + ";".join(sorted(made))[:160]
             what = ("allocation made inside libvna still live after every "
                     "vnacal_t was freed (case %s, live=%s)" %
                     (case, ev.get("live")))
@@ -179,7 +188,7 @@ def _counters(path):
     """how often the clauses that need luck were actually exercised"""
     c = {"solve_ok": 0, "addcal_ok": 0, "addcal_replace": 0,
          "solved_unknown_true": 0, "deleted_held_used": 0, "refused_calls": 0,
-         "silent_refused": 0, "multi_store_events": 0}
+         "silent_refused": 0, "multi_store_events": 0, "load_ok": 0}
     with open(path) as fp:
         names = {}
         deleted = set()
@@ -200,6 +209,8 @@ def _counters(path):
                     c["silent_refused"] += 1
             if len(ev.get("obs", [])) > 1:
                 c["multi_store_events"] += 1
+            if e == "Load" and ok == 1:
+                c["load_ok"] += 1
             if e == "Solve" and ok == 1:
                 c["solve_ok"] += 1
             elif e == "AddCalibration" and ok == 1:
@@ -294,7 +305,8 @@ def run(ctx, exe, tier, seed, exh_depth=None, rand_cases=None, rand_len=None):
     # the clauses that depend on the histories reaching certain situations
     # must not be vacuous on the implementation side either
     need = ["solve_ok", "addcal_ok", "addcal_replace", "solved_unknown_true",
-            "deleted_held_used", "silent_refused"]
+            "deleted_held_used", "silent_refused", "load_ok",
+            "multi_store_events"]
     if not stats["crashes"]:
         for k in need:
             if stats["counters"].get(k, 0) == 0:
